@@ -147,7 +147,8 @@ func newParser(data string, pos int, opt uint64) *Parser {
 		p.padded = append(p.padded, padding...)
 		p.start = uintptr((*rt.GoSlice)(unsafe.Pointer(&p.padded)).Ptr)
 	} else {
-		p.Json = data
+		// every offset of the parser is relative to the part that is parsed
+		p.Json = data[pos:]
 		// TODO: prevent too large JSON
 		p.padded = append(p.padded, data[pos:]...)
 		p.padded = append(p.padded, padding...)
